@@ -12,6 +12,9 @@ import (
 )
 
 type ModRef struct {
+	Via map[*ssa.Function]map[modKey]bool // parameter-relative mod sets
+	cg  *CallGraph
+	ts  *Terms
 	Mod map[*ssa.Function]map[*types.Var]bool
 	Ref map[*ssa.Function]map[*types.Var]bool
 	// locals (Alloc cells, incl. captured ones resolved to the parent's cell) written by the function
@@ -77,6 +80,11 @@ func ptrRoot(fn *ssa.Function, v ssa.Value) (string, int) {
 			v = a.X
 		case *ssa.ChangeType:
 			v = a.X
+		case *ssa.Slice:
+			if _, isPtr := a.X.Type().Underlying().(*types.Pointer); !isPtr {
+				return "other", -1
+			}
+			v = a.X
 		case *ssa.Alloc:
 			return "local", -1
 		case *ssa.Parameter:
@@ -99,8 +107,9 @@ type modKey struct {
 }
 
 func BuildModRef(p *Program, cg *CallGraph, ts *Terms) *ModRef {
-	mr := &ModRef{Mod: map[*ssa.Function]map[*types.Var]bool{}, Ref: map[*ssa.Function]map[*types.Var]bool{}, ModLocals: map[*ssa.Function]map[ssa.Value]bool{}}
+	mr := &ModRef{Mod: map[*ssa.Function]map[*types.Var]bool{}, Ref: map[*ssa.Function]map[*types.Var]bool{}, ModLocals: map[*ssa.Function]map[ssa.Value]bool{}, cg: cg, ts: ts}
 	via := map[*ssa.Function]map[modKey]bool{}
+	mr.Via = via
 	for _, f := range p.ModFuncs {
 		mv := map[modKey]bool{}
 		ref := map[*types.Var]bool{}
@@ -178,7 +187,8 @@ func BuildModRef(p *Program, cg *CallGraph, ts *Terms) *ModRef {
 							}
 						case "copy":
 							if fv := fieldOfAddr(c.Args[0]); fv != nil {
-								mv[modKey{fv, -1}] = true
+								_, viaLoad := derefInChain(c.Args[0])
+								addMod(fv, c.Args[0], viaLoad)
 							}
 							markLocalRoot(c.Args[0], ts, locs)
 						case "append":
@@ -202,6 +212,40 @@ func BuildModRef(p *Program, cg *CallGraph, ts *Terms) *ModRef {
 					continue
 				}
 				c := callInstrCommon(e.Site)
+				if c != nil && !e.Callback && c.StaticCallee() == nil && !c.IsInvoke() && cg.funcParamOrigin(c.Value, ts) != nil {
+					// a call through one of f's own function-typed parameters: its effects are attributed
+					// to the call site that supplies the function (below), not to f
+					continue
+				}
+				// functions handed over at this site (closures, method values) run during the call
+				if c != nil {
+					for _, a := range c.Args {
+						if !isFuncType(a.Type()) || cg.funcParamOrigin(a, ts) != nil {
+							continue
+						}
+						for _, h := range cg.FuncsOf(a) {
+							for k := range via[h] {
+								nk := modKey{k.fv, -1}
+								if !via[f][nk] {
+									via[f][nk] = true
+									changed = true
+								}
+							}
+							for v := range mr.Ref[h] {
+								if !mr.Ref[f][v] {
+									mr.Ref[f][v] = true
+									changed = true
+								}
+							}
+							for v := range mr.ModLocals[h] {
+								if !mr.ModLocals[f][v] {
+									mr.ModLocals[f][v] = true
+									changed = true
+								}
+							}
+						}
+					}
+				}
 				off := 0
 				if c != nil && c.IsInvoke() {
 					off = 1
@@ -297,4 +341,70 @@ func markLocalRoot(addr ssa.Value, ts *Terms, locs map[ssa.Value]bool) {
 			return
 		}
 	}
+}
+
+// SiteMod: the fields a call instruction may write as seen by the caller: the mod sets of its
+// resolved callees plus those of the functions handed over as arguments at this site. When argIdx ≥ 0
+// only writes that can go through that argument (or through unrelated heap paths) are reported:
+// a callee that writes solely through *another* pointer parameter does not count.
+func (mr *ModRef) SiteMod(ins ssa.Instruction, argIdx int) map[*types.Var]bool {
+	out := map[*types.Var]bool{}
+	c := callInstrCommon(ins)
+	if c == nil {
+		return out
+	}
+	off := 0
+	if c.IsInvoke() {
+		off = 1
+	}
+	for _, e := range mr.cg.SiteOut[ins] {
+		if e.Mode == ModeGo {
+			continue
+		}
+		for k := range mr.Via[e.Callee] {
+			if argIdx >= 0 && k.via >= 0 && !e.Callback && k.via-off != argIdx {
+				continue
+			}
+			out[k.fv] = true
+		}
+	}
+	for _, a := range c.Args {
+		if !isFuncType(a.Type()) {
+			continue
+		}
+		for _, h := range mr.cg.FuncsOf(a) {
+			for k := range mr.Via[h] {
+				out[k.fv] = true
+			}
+		}
+	}
+	return out
+}
+
+// SiteModLocals: local cells a call instruction may write (through closures it runs).
+func (mr *ModRef) SiteModLocals(ins ssa.Instruction) map[ssa.Value]bool {
+	out := map[ssa.Value]bool{}
+	c := callInstrCommon(ins)
+	if c == nil {
+		return out
+	}
+	for _, e := range mr.cg.SiteOut[ins] {
+		if e.Mode == ModeGo {
+			continue
+		}
+		for v := range mr.ModLocals[e.Callee] {
+			out[v] = true
+		}
+	}
+	for _, a := range c.Args {
+		if !isFuncType(a.Type()) {
+			continue
+		}
+		for _, h := range mr.cg.FuncsOf(a) {
+			for v := range mr.ModLocals[h] {
+				out[v] = true
+			}
+		}
+	}
+	return out
 }
